@@ -989,6 +989,38 @@ class Unit:
         toks = s.toks
         lo, hi = it["body_open"], it["end"]
         code = [k for k in range(lo, hi) if toks[k].kind in CODE]
+        at = next((o.split("=", 1)[1] for o in opts if o.startswith("at=")), None)
+        if at is not None:
+            # R10c: not an arm but the EXPRESSION of fn <fn_name> that starts with the token sequence `at` (e.g. `match dbs.get_role()`): a `match` / `if` / block expression up
+            # to its closing brace becomes the body of fn <variant>(params=..) -> ret=..; the enclosing function's locals it uses become the parameters named in params=
+            atoks = [t.text for t in lex(at) if t.kind in CODE]
+            hits = [ci for ci in range(len(code) - len(atoks) + 1) if all(toks[code[ci + d]].text == atoks[d] for d in range(len(atoks)))]
+            if len(hits) != 1:
+                raise AnchorLost("%s: fn %s: expression anchor `%s` found %d times" % (rel, fn_name, at, len(hits)))
+            start = code[hits[0]]
+            j, depth, end = start, 0, None
+            while j < hi:
+                t = toks[j]
+                if t.kind == "p" and t.text in "([": depth += 1
+                elif t.kind == "p" and t.text in ")]": depth -= 1
+                elif t.kind == "p" and t.text == "{" and depth == 0:
+                    end = match_close(toks, j); break
+                j += 1
+            if end is None:
+                raise AnchorLost("%s: fn %s: expression at `%s` has no block" % (rel, fn_name, at))
+            expr = s.text_of(start, end)
+            src_line = s.line_of(toks[start].start)
+            new_expr = rewrite_builtin(expr, self.counts, mutable=True)
+            for lno, ln in block:
+                if ln.startswith("//@rewrite"):
+                    frm, to, expect, _w = _parse_rewrite(ln, self.vc_path, lno - 1)
+                    new_expr = apply_literal_rewrite(new_expr, frm, to, expect, self.counts, name_hint(variant))
+            xparams = next((o.split("=", 1)[1] for o in opts if o.startswith("params=")), "")
+            xret = next((o.split("=", 1)[1] for o in opts if o.startswith("ret=")), None)
+            sig = "fn %s(%s)%s" % (variant, xparams, (" -> (r: %s)" % xret) if xret else "")
+            self.dropped.append("expression `%s ..` of %s (%s:%d): R10c extracted as fn %s; the enclosing function's locals `%s` become parameters" % (at, fn_name, rel, src_line, variant, xparams))
+            self.counts.add("R10c.expression-extracted-as-function")
+            return self._emit_arm_fn(rel, variant, variant, sig, block, new_expr, expr, src_line, "%s:expression `%s` of %s (source)" % (rel, at, fn_name))
         # locate `Request :: variant`
         pos = None
         for ci in range(len(code) - 4):
@@ -1183,6 +1215,9 @@ class Unit:
             sig = "fn %s(%s%sdbs: %s, client: &%sClient) -> (r: Response)" % (
                 name, ", ".join(params), ", " if params else "", "&mut Databases" if "mutdbs" in opts else "&Arc<Databases>",
                 "mut " if "mutclient" in opts else "")
+        return self._emit_arm_fn(rel, variant, name, sig, block, new_expr, expr, src_line, "%s:arm Request::%s (source)" % (rel, variant))
+
+    def _emit_arm_fn(self, rel, variant, name, sig, block, new_expr, expr, src_line, diff_title):
         owner_name = name
         self.emit(sig, owner_name, None, "sig", src="%s:%d" % (rel, src_line))
         label, labels = None, []
@@ -1239,8 +1274,7 @@ class Unit:
         self.emit("}", owner_name, None, "glue")
         self.functions.append(dict(path=name, file=rel, line=src_line, external=False, labels=labels, mutself=False, body=new_expr))
         new_expr = model_leftovers(new_expr, self.counts)
-        self.diffs[name] = "".join(difflib.unified_diff(expr.splitlines(True), new_expr.splitlines(True),
-                                                        "%s:arm Request::%s (source)" % (rel, variant), "extracted", n=0))
+        self.diffs[name] = "".join(difflib.unified_diff(expr.splitlines(True), new_expr.splitlines(True), diff_title, "extracted", n=0))
         self.counts.add("items.arm")
 
     # ---- functions
